@@ -1347,6 +1347,30 @@ func (e *Env) call(ex *ast.CallExpr) (SymVal, error) {
 			facts = append(facts, sEq(hn, app("store", ho, rs, app("select", hn, rs))))
 		}
 		return mkBool(sAnd(facts...)), nil
+	case "sorted":
+		// sorted(s): a []string in non-decreasing order (sle: the byte-wise order on strings,
+		// uninterpreted here; only sort.Strings is assumed to establish it)
+		a, err := arg(0)
+		if err != nil {
+			return SymVal{}, err
+		}
+		if a.K != KSlice {
+			return SymVal{}, fmt.Errorf("sorted needs a slice")
+		}
+		et := elemType(a.T)
+		if et == nil || kindOf(et) != KStr {
+			return SymVal{}, fmt.Errorf("sorted needs a []string")
+		}
+		if c.flags["$sle"] == "" {
+			c.flags["$sle"] = "1"
+			fmt.Fprintf(&c.sb, "(declare-fun sle (Str Str) Bool)\n")
+		}
+		bn := fmt.Sprintf("i!q%d", c.nfresh)
+		c.nfresh++
+		comp := "$mem:" + typeKey(et)
+		h := c.comp(e.st, comp, "Str")
+		at := func(i string) string { return app("select", h, app("elm", a.Fs[0].S, c.addI(a.Fs[1].S, i))) }
+		return mkBool(fmt.Sprintf("(forall ((%s Int)) (! (=> (and (<= 0 %s) (< (+ %s 1) %s)) (sle %s %s)) :pattern (%s)))", bn, bn, bn, a.Fs[2].S, at(bn), at(app("+", bn, "1")), at(bn))), nil
 	case "isNone":
 		a, err := arg(0)
 		if err != nil {
